@@ -26,6 +26,7 @@ def gen(rng, tier="quick", **force):
     # real non-symmetric H_0 with complex-conjugate eigenvalue pairs that are split between the explicit and
     # the implicit subspace (real dtype of H_0, complex eigenvectors)
     spec["real_pairs"] = bool((not spec["hermitian"]) and (not spec["complex"]) and rng.random() < 0.5)
+    spec["interleaved"] = bool(spec["degenerate"] and rng.random() < 0.5)
     # two distinct levels of equal magnitude inside one explicit block: +E / -E (chiral or particle-hole symmetric
     # spectrum) or E / conj(E) (non-Hermitian)
     spec["mirror_pairs"] = bool((not spec["degenerate"]) and rng.random() < 0.35)
@@ -93,7 +94,9 @@ def build(spec):
     off = 0
     for s in sizes:
         if s >= 2 and spec["degenerate"]:
-            E[off + 1] = E[off]
+            # (interleaved: the two members of the level are separated by another level, e.g. spin-degenerate H_0 with the
+            # basis ordered "all up, then all down")
+            E[off + (2 if (s >= 3 and spec.get("interleaved")) else 1)] = E[off]
         off += s
     if not hermitian and cplx:
         E = E + 1j * rng.integers(-2, 3, size=N) * 0.5
@@ -101,7 +104,7 @@ def build(spec):
         off = 0
         for s in sizes:
             if s >= 2 and spec["degenerate"]:
-                E[off + 1] = E[off]
+                E[off + (2 if (s >= 3 and spec.get("interleaved")) else 1)] = E[off]
             off += s
     if spec.get("mirror_pairs"):
         off = 0
